@@ -5,7 +5,7 @@
 //
 //	graph <root> <node> <node> ...      (format: see ocaml/analysis/driver.ml)
 //	  -> dup | graph=<ok|missing|self|cycle|conflict|other>\tcons=<class,class|->\t<accept|reject>
-//	clean <p> | join <a> <b> | esc <p> | within <path> <dir> | outpath <pkg> <id> | ws <root> <pkg> <rel>
+//	clean <p> | join <a> <b> | esc <p> | within <path> <dir> | outpath <root> <pkg> <id> | ws <root> <pkg> <rel>
 //
 // Every node is put into a Package of its own (Path = its package path), so that a label
 // declared twice reaches BuildNodeMapFromPackages the way two build files of one directory
@@ -190,8 +190,10 @@ func main() {
 		case "within":
 			return b(analysis.VerifPathWithin(w.Unhex(f[1]), w.Unhex(f[2])))
 		case "outpath":
-			t := &model.Target{Label: label.TargetLabel{Package: w.Unhex(f[1]), Name: "x"}}
-			return w.Hex(analysis.VerifCleanOutputPath(t, w.Unhex(f[2])))
+			// cleanOutputPath reads the workspace root from the global configuration
+			config.Global.WorkspaceRoot = w.Unhex(f[1])
+			t := &model.Target{Label: label.TargetLabel{Package: w.Unhex(f[2]), Name: "x"}}
+			return w.Hex(analysis.VerifCleanOutputPath(t, w.Unhex(f[3])))
 		case "ws":
 			ok, err := analysis.VerifIsWithinWorkspace(w.Unhex(f[1]), w.Unhex(f[2]), w.Unhex(f[3]))
 			if err != nil {
